@@ -1,6 +1,7 @@
 import OdlModel.Common
 import OdlModel.Model.Solvers
 import OdlModel.Model.SolversInst
+import OdlModel.Model.SolversResume
 open OdlModel OdlModel.Solvers OdlModel.SolversInst
 
 /-!
@@ -226,6 +227,108 @@ def doPdhg (l : Line) : Option String := do
   let (s, log) := runLog P.step (·.x) n (P.init x0 xr y (Vec.zero dw) (junk dv) (junk dw)) []
   some s!"ok log={showLog log} x={showVec s.x} xr={showVec s.xRelax} y={showVec s.y}"
 
+/-! ### Round 4: callable `lam`, accelerated PDHG -/
+
+/-- `proxgradlam pf= gg= gamma= lams=<lam(0)>,<lam(1)>,… x0= n=`: `proximal_gradient` with a callable
+`lam` given as the table of its values at `k = 0 … n-1` (a resumed call sends the shifted table). -/
+def doProxGradLam (l : Line) : Option String := do
+  let pf ← Line.pspec? l "pf"
+  let gg ← Line.pspec? l "gg"
+  let gamma ← l.rat? "gamma"
+  let lams ← l.rats? "lams"
+  let x0 ← l.rats? "x0"
+  let n ← l.nat? "n"
+  if lams.length < n then none
+  let P : ProxGradP Rat RV := ⟨pf.eval, gg.eval, gamma, fun k => lams.getD k 0⟩
+  let (s, log) := runLog P.step (·.x) n (P.init x0 (junk x0.length)) []
+  some s!"ok log={showLog log} x={showVec s.x} k={s.k}"
+
+/-- Functionals of the modelled zoo as proximal FACTORIES (step ↦ entry-wise map):
+`zero`, `l1:a` (`a‖·‖₁`), `l2sq:c` (`c‖·‖₂²`), `box:lo:hi`, `nonneg`, `t:g:<f>` (`f(· - g)`). -/
+inductive FSpec
+  | zero
+  | l1 (a : Rat)
+  | l2sq (c : Rat)
+  | box (lo hi : Rat)
+  | nonneg
+  | transl (g : List Rat) (f : FSpec)
+
+/-- `f.proximal(s)` -/
+def FSpec.prox : FSpec → Rat → PSpec Rat
+  | .zero, _ => .id
+  | .l1 a, s => .soft (a * s)
+  | .l2sq c, s => .scale (1 / (1 + 2 * c * s))
+  | .box lo hi, _ => .clamp lo hi
+  | .nonneg, _ => .lower 0
+  | .transl g f, s => .shift g (f.prox s)
+
+/-- `f.convex_conj.proximal(s)` -/
+def FSpec.cprox : FSpec → Rat → PSpec Rat
+  | .zero, _ => .scale 0
+  | .l1 a, _ => .clamp (-a) a
+  | .l2sq c, s => .scale (1 / (1 + s / (2 * c)))
+  | .box lo hi, s => .moreau s (.clamp lo hi)
+  | .nonneg, s => .moreau s (.lower 0)
+  | .transl g f, s => .comp (f.cprox s) (.affine 1 (g.map (fun v => -(s * v))))
+
+def parseFSpecToks : Nat → List String → Option FSpec
+  | 0, _ => none
+  | _ + 1, ["zero"] => some .zero
+  | _ + 1, ["nonneg"] => some .nonneg
+  | _ + 1, ["l1", a] => do some (.l1 (← parseRat a))
+  | _ + 1, ["l2sq", c] => do let c ← parseRat c; if c = 0 then none else some (.l2sq c)
+  | _ + 1, ["box", a, b] => do some (.box (← parseRat a) (← parseRat b))
+  | f + 1, "t" :: g :: r => do some (.transl (← parseRatList g) (← parseFSpecToks f r))
+  | _ + 1, _ => none
+
+def fspec? (l : Line) (k : String) : Option FSpec := do parseFSpecToks 8 ((← l.get? k).splitOn ":")
+
+/-- `np.sqrt` on rationals: exact on squares of rationals, else rounded down to 64 fractional bits
+(relative error < 2^-60; such cases are compared with the tolerance of the general stream). -/
+def ratSqrt (q : Rat) : Rat :=
+  if q ≤ 0 then 0 else
+  let n := q.num.toNat
+  let d := q.den
+  let sn := Nat.sqrt n
+  let sd := Nat.sqrt d
+  if sn * sn = n && sd * sd = d then mkRat sn sd
+  else mkRat (Nat.sqrt (n * 2 ^ 128 / d)) (2 ^ 64)
+
+def optRat? (l : Line) (k : String) : Option (Option Rat) :=
+  match l.get? k with
+  | some "none" => some none
+  | some _ => (l.rat? k).map some
+  | none => none
+
+/-- `pdhgacc A= At= ff=<fspec> gf=<fspec> tau= sigma= theta= gp=<rat>|none gd=<rat>|none x0= [xr= y=] n=` -/
+def doPdhgAcc (l : Line) : Option String := do
+  let A ← Line.matR? l "A"
+  let At ← Line.matR? l "At"
+  let ff ← fspec? l "ff"
+  let gf ← fspec? l "gf"
+  let tau ← l.rat? "tau"
+  let sigma ← l.rat? "sigma"
+  let theta ← l.rat? "theta"
+  let gp ← optRat? l "gp"
+  let gd ← optRat? l "gd"
+  let x0 ← l.rats? "x0"
+  let n ← l.nat? "n"
+  let dv := x0.length
+  let dw := A.rows
+  shape? A dw dv; shape? At dv dw
+  -- both acceleration parameters: the code raises before the loop; non-positive steps: no proximal
+  if (gp.isSome && gd.isSome) || tau ≤ 0 || sigma ≤ 0 then none
+  let xr ← match l.get? "xr" with
+    | none => some none
+    | some _ => (l.rats? "xr").map some
+  let y ← match l.get? "y" with
+    | none => some none
+    | some _ => (l.rats? "y").map some
+  let P : PdhgAccP Rat RV RV :=
+    ⟨A.mulVec, fun _ => At.mulVec, fun s => (ff.prox s).eval, fun s => (gf.cprox s).eval, gp, gd, ratSqrt⟩
+  let (s, log) := runLog P.step (·.x) n (P.init x0 xr y (Vec.zero dw) tau sigma theta (junk dv) (junk dw)) []
+  some s!"ok log={showLog log} x={showVec s.x} xr={showVec s.xRelax} y={showVec s.y} tau={showRat s.tau} sigma={showRat s.sigma}"
+
 def handle (l : Line) : Option String :=
   match l.op with
   | "admm" => doAdmm l
@@ -237,6 +340,8 @@ def handle (l : Line) : Option String :=
   | "osmlem" => doOsmlem l
   | "steepest" => doSteepest l
   | "pdhg" => doPdhg l
+  | "proxgradlam" => doProxGradLam l
+  | "pdhgacc" => doPdhgAcc l
   | _ => none
 
 def main : IO Unit := driverLoop handle
